@@ -92,6 +92,9 @@ type built struct {
 
 func build(g *gGrammar, k int) (b *built, err error) { return buildWith(g, k) }
 
+// rootIsUnion makes buildWith build Build[URoot] (an interface root type with its Union option) instead of Build[DynRoot].
+var rootIsUnion bool
+
 func buildWith(g *gGrammar, k int, extra ...participle.Option) (b *built, err error) {
 	defer func() {
 		if r := recover(); r != nil {
@@ -190,6 +193,11 @@ func buildWith(g *gGrammar, k int, extra ...participle.Option) (b *built, err er
 		opts = append(opts, participle.CaseInsensitive("Ident"))
 	}
 	opts = append(opts, extra...)
+	if rootIsUnion {
+		// the union itself as the root grammar type
+		_, err := participle.Build[URoot](opts...)
+		return nil, err
+	}
 	p, err := participle.Build[DynRoot](opts...)
 	if err != nil {
 		return nil, err
@@ -341,13 +349,15 @@ var numTypes = map[string]reflect.Type{
 }
 
 // runGuarded runs f under a watchdog; a hang is reported as "hang".
-func runGuarded(f func() string) string {
+func runGuarded(f func() string) string { return runGuardedFor(20*time.Second, f) }
+
+func runGuardedFor(d time.Duration, f func() string) string {
 	ch := make(chan string, 1)
 	go func() { ch <- f() }()
 	select {
 	case s := <-ch:
 		return s
-	case <-time.After(20 * time.Second):
+	case <-time.After(d):
 		return "hang"
 	}
 }
@@ -596,17 +606,36 @@ func buildRun(args []string) error {
 	for gi := start; gi < len(gs); gi++ {
 		g := &gs[gi]
 		w.Flush()
-		res := runGuarded(func() string {
-			_, err := build(g, g.Ks[0])
-			if err != nil {
-				msg := strings.ReplaceAll(err.Error(), "\n", " ")
-				if strings.HasPrefix(msg, "PANIC") {
-					return "panic " + msg
+		one := func() string {
+			return runGuarded(func() string {
+				_, err := build(g, g.Ks[0])
+				if err != nil {
+					msg := strings.ReplaceAll(err.Error(), "\n", " ")
+					if strings.HasPrefix(msg, "PANIC") {
+						return "panic " + msg
+					}
+					return "err " + msg
 				}
-				return "err " + msg
+				return "ok"
+			})
+		}
+		res := one()
+		if _, ok := g.Unions["URoot"]; ok {
+			// the same grammar with the union itself as root type must get the same verdict
+			rootIsUnion = true
+			res2 := one()
+			rootIsUnion = false
+			if strings.SplitN(res, " ", 2)[0] != strings.SplitN(res2, " ", 2)[0] {
+				if strings.HasPrefix(res, "err") {
+					res = res2 + " [with the union URoot as the root grammar type; with the struct root: " + res + "]"
+				} else {
+					res = res + " [with the struct root; with the union URoot as the root grammar type: " + res2 + "]"
+					if strings.HasPrefix(res2, "err") {
+						res = "mixed " + res
+					}
+				}
 			}
-			return "ok"
-		})
+		}
 		fmt.Fprintf(w, "%s\t%s\n", g.ID, res)
 	}
 	return nil
@@ -694,6 +723,35 @@ func parseEvents(args []string) error {
 				fmt.Fprintf(w, "%s\t%d\t%d\t%s\t%s\n", g.ID, k, i, sb.String(), er)
 			}
 		}
+	}
+	return nil
+}
+
+func init() { commands["lookahead-big"] = lookaheadBig }
+
+type bigLA struct {
+	A []string `(  @"x"+ "!"`
+	B []string ` | @"x"+ "?" )`
+}
+
+// lookahead-big <n>: a failing first alternative that consumes n tokens before the second one matches, under lookaheads
+// around and beyond MaxLookahead; prints "k\toutcome".
+func lookaheadBig(args []string) error {
+	n, _ := strconv.Atoi(args[0])
+	in := strings.Repeat("x ", n) + "?"
+	for _, k := range []int{0, 1, participle.MaxLookahead, participle.MaxLookahead + 50000, -1, -7} {
+		res := runGuardedFor(120*time.Second, func() string {
+			p, err := participle.Build[bigLA](participle.UseLookahead(k))
+			if err != nil {
+				return "builderr " + err.Error()
+			}
+			v, err := p.ParseString("", in)
+			if err != nil {
+				return "err"
+			}
+			return fmt.Sprintf("ok A=%d B=%d", len(v.A), len(v.B))
+		})
+		fmt.Printf("%d\t%s\n", k, res)
 	}
 	return nil
 }
